@@ -112,7 +112,33 @@ def gen_boxes(rng):
     c = rng.random()
     n = rng.choice((0, 1, 2, 3, 4, 5, 8, 13, rng.randint(6, 60), rng.randint(20, 400)))
     boxes = []
-    if c < 0.22:
+    if c < 0.04:
+        # finite but extreme coordinates: sums of two coordinates overflow, both signs present,
+        # mixed with ordinary and sub-normal boxes
+        cls = "extreme magnitudes (sums overflow)"
+        n = max(2, min(n, 12))
+        big = (1e308, 1.7e308, 8.9e307, 1.2e308, 1.79e308)
+        for _ in range(n):
+            k = rng.randrange(6)
+            y0 = rng.choice((0.0, 1.0, -1e308, 1e308, rng.uniform(-5, 5)))
+            y1 = y0 if rng.random() < 0.3 else max(y0, rng.choice((1.0, 1.7e308, y0 + 1)))
+            if k == 0:
+                a, b = sorted((rng.choice(big), rng.choice(big)))
+                boxes.append((a, y0, b, y1))
+            elif k == 1:
+                a, b = sorted((-rng.choice(big), -rng.choice(big)))
+                boxes.append((a, y0, b, y1))
+            elif k == 2:
+                boxes.append((-rng.choice(big), y0, rng.choice(big), y1))
+            elif k == 3:
+                boxes.append((rng.uniform(0, 1), rng.uniform(0, 1), rng.uniform(1, 2), rng.uniform(1, 2)))
+            elif k == 4:
+                boxes.append((5e-324, 0.0, 1e-310, 2e-308))
+            else:
+                a = rng.choice(big) * rng.choice((1, -1))
+                boxes.append((a, a, a, a))
+        boxes = [(x0, min(yy0, yy1), x1, max(yy0, yy1)) for x0, yy0, x1, yy1 in boxes]
+    elif c < 0.22:
         cls = "integer lattice"
         span = rng.choice((3, 6, 12, 40))
         for _ in range(n):
@@ -181,6 +207,13 @@ def gen_query(rng, boxes):
     allx1 = max(b[1][2] for b in boxes)
     ally1 = max(b[1][3] for b in boxes)
     w, h = max(allx1 - allx0, 1), max(ally1 - ally0, 1)
+    if w == float("inf") or h == float("inf") or max(abs(allx0), abs(allx1), abs(ally0), abs(ally1)) > 1e300:
+        # extreme collection: keep the query finite (no arithmetic on the extremes)
+        pts_x = sorted({b[1][0] for b in boxes} | {b[1][2] for b in boxes} | {0.0, 1.0, -1.79e308, 1.79e308})
+        pts_y = sorted({b[1][1] for b in boxes} | {b[1][3] for b in boxes} | {0.0, 1.0, -1.79e308, 1.79e308})
+        x0, x1 = sorted((rng.choice(pts_x), rng.choice(pts_x)))
+        y0, y1 = sorted((rng.choice(pts_y), rng.choice(pts_y)))
+        return "extreme query", (x0, y0, x1, y1)
     if c < 0.14:
         side = rng.randrange(4)
         ext = rng.choice((0, 1, w / 3))
@@ -273,7 +306,7 @@ def run(ctx):
             ctx.sample({"boxes": boxes[:8], "n_boxes": len(boxes), "query": queries[0]}, tag=cls, per_tag=1)
         one_tree(ctx, mon, cls, boxes, queries)
     ctx.extra["max_nodes_in_one_tree"] = [ctx.extra.get("max_nodes_in_one_tree", 0)]
-    for cls in ("integer lattice", "strokes (zero-width / zero-height)", "points", "duplicates", "nested",
+    for cls in ("extreme magnitudes (sums overflow)", "query:extreme query", "integer lattice", "strokes (zero-width / zero-height)", "points", "duplicates", "nested",
                 "shared edges (tiling)", "collinear strokes", "continuous",
                 "query:touching a box by an edge", "query:touching a box by a corner",
                 "query:degenerate query (point)", "query:degenerate query (segment)",
